@@ -123,14 +123,17 @@ def with_method(ops, cls, r):
     return out
 
 
-def as_substage(steps, name="s1"):
-    """the same OCP declared as the only stage of an otherwise empty parent"""
+def as_substage(steps, name="s1", parent_method=False):
+    """the same OCP declared as the only stage of an otherwise empty parent (which may have declared a method of
+    its own: that says nothing about the stage)"""
     out = []
     for st in steps:
         st = dict(st)
         k = st["op"]
         if k == "new_ocp":
             out.append({"op": "new_ocp"})
+            if parent_method:
+                out.append({"op": "method", "m": {"cls": "MultipleShooting", "N": 2, "M": 1, "intg": "rk"}})
             d = {"op": "stage", "name": name}
             for key in ("T", "t0"):
                 if key in st:
@@ -281,6 +284,7 @@ def cases_for(ops, sp, cls, r):
 def run_seed(seed):
     """one unit of work = (base OCP seed // 3, method seed % 3); the matrix for it is enumerated completely"""
     base_seed, mi, sub = seed // 6, seed % 3, (seed // 3) % 2 == 1
+    parent_method = sub and (seed // 6) % 2 == 1
     r = random.Random(base_seed)
     import os
 
@@ -305,7 +309,7 @@ def run_seed(seed):
     result["config"]["method"] = METHODS[mi]
     result["config"]["base_seed"] = base_seed
     result["config"]["placement"] = "sub-stage" if sub else "top-level"
-    place = as_substage if sub else (lambda x: x)
+    place = (lambda x: as_substage(x, parent_method=parent_method)) if sub else (lambda x: x)
     for cls in methods:
         mops = with_method(ops, cls, r)
         ctrl = execute_case(place(mops + jcopy(TRIGGERS["solve"])), probe_seed)
@@ -317,7 +321,7 @@ def run_seed(seed):
             if sub and key[0] == "no_solver":
                 pass  # the solver belongs to the parent: same case, still meaningful
             steps = place(steps)
-            key = key[:2] + (key[2] + ("/sub-stage" if sub else ""),) + key[3:]
+            key = key[:2] + (key[2] + (("/sub-stage+parent-method" if parent_method else "/sub-stage") if sub else ""),) + key[3:]
             counts["cases"] += 1
             try:
                 out = execute_case(steps, probe_seed)
